@@ -146,6 +146,9 @@ pub struct EnvInner {
     pub buffer_ms: u32,
     pub nb_offset_ms: i32,
     pub nb_duration_ms: u32,
+    pub nb_meddle: u32,
+    /// refused calls made in mid-transaction so far (evidence)
+    pub meddles: u64,
 }
 
 #[derive(Clone)]
@@ -187,6 +190,8 @@ impl Env {
             buffer_ms: 0,
             nb_offset_ms: 0,
             nb_duration_ms: 100,
+            nb_meddle: 0,
+            meddles: 0,
         })))
     }
     pub fn push(&self, e: Ev) {
